@@ -13,7 +13,7 @@ the instrumented protected value, blocked-while-free at deadlock.
 """
 import os, re, sys
 sys.path.insert(0, os.path.dirname(__file__))
-from vlib import VERIF, REPO
+from vlib import VERIF, REPO, CHAN_RUSTFLAGS
 
 THEOREMS = [l.strip() for l in open(os.path.join(VERIF, "props", "C10.theorems")) if l.strip() and not l.startswith("#")]
 
@@ -42,7 +42,7 @@ def mine(ctx, t):
 def run(ctx):
     ctx.lean_obligations("Fv.Props.C10", THEOREMS)
     drv = ctx.lean_exe("fvdrv_lock")
-    h = ctx.cargo_build("chan", "chanh", rustflags="--cfg loom")
+    h = ctx.cargo_build("chan", "chanh", rustflags=CHAN_RUSTFLAGS)
     seam_guard(ctx)
     ctx.assumptions += [
         "sequentially consistent memory: the orderings of all accesses are compared on every trace (a weakened ordering is a broken correspondence) but given no semantics",
